@@ -20,6 +20,7 @@ import (
 	"crypto/des"
 	"fmt"
 	"sync"
+	"time"
 
 	"github.com/tjfoc/gmsm/sm4"
 	kcp "github.com/xtaci/kcp-go/v5"
@@ -34,6 +35,11 @@ import (
 )
 
 const maxLen = 1500
+
+// the IV every deployed peer uses (README / wire compatibility): the reference CFB is computed
+// with THIS value, not with whatever the working tree says, so a consistently changed IV is a
+// failing input and not a moved goalpost.
+var pinnedIV = []byte{167, 115, 79, 156, 18, 172, 27, 1, 164, 21, 242, 193, 252, 120, 230, 107}
 
 // ---------------------------------------------------------------------------------------------
 // toy block cipher: must stay identical to KcpVerif.Cfb.toyE
@@ -187,9 +193,10 @@ func (x *runner) helperOp(dir string, bs int, alias bool, n int) {
 	// aliasing combination
 	if dir == "enc" {
 		ct := append([]byte(nil), dst[:n]...)
-		c := kcp.VerifNewBlockCrypt(blk)
+		// a fresh wrapper per call: the real Encrypt/Decrypt do not unlock their mutex when the
+		// helper panics, so an instance must not be reused after a panic
 		w := append([]byte(nil), in...)
-		if m := hx.Try(func() { c.Encrypt(w, w) }); m != "" || !bytes.Equal(w, ct) {
+		if m := hx.Try(func() { kcp.VerifNewBlockCrypt(blk).Encrypt(w, w) }); m != "" || !bytes.Equal(w, ct) {
 			x.viol("cfb-wrapper", fmt.Sprintf("blockCrypt.Encrypt (toy%d, len %d, in place) differs from encrypt%d: %s", bs, n, bs, m), op)
 		}
 		for _, a2 := range []bool{true, false} {
@@ -200,7 +207,7 @@ func (x *runner) helperOp(dir string, bs int, alias bool, n int) {
 			} else {
 				d2 = g.Bytes(n)
 			}
-			if m := hx.Try(func() { c.Decrypt(d2, s2) }); m != "" || !bytes.Equal(d2, in) {
+			if m := hx.Try(func() { kcp.VerifNewBlockCrypt(blk).Decrypt(d2, s2) }); m != "" || !bytes.Equal(d2, in) {
 				x.viol("roundtrip-toy", fmt.Sprintf("toy%d len=%d enc %s, dec %s: Decrypt(Encrypt(x)) != x %s", bs, n, aliasName(alias), aliasName(a2), m), op)
 			}
 		}
@@ -319,7 +326,11 @@ func ciphers() []realCipher {
 
 func (x *runner) realOracles() {
 	g := x.g
-	iv := kcp.VerifInitialVector()
+	iv := pinnedIV
+	if cur := kcp.VerifInitialVector(); !bytes.Equal(cur, pinnedIV) {
+		x.viol("iv-changed", fmt.Sprintf("initialVector is %s, deployed peers use %s: every CFB packet becomes unreadable for them", hx.Hex(cur), hx.Hex(pinnedIV)),
+			"compare kcp.initialVector with the pinned wire-compatibility value")
+	}
 	rounds := 1
 	if x.tier == "thorough" {
 		rounds = 6
@@ -341,14 +352,21 @@ func (x *runner) realOracles() {
 					break
 				}
 			}
-			for n := 0; n <= maxLen; n++ {
-				x.realCase(rc.name, key, enc, dec, blk, iv, n)
+			panics := 0
+			for n := 0; n <= maxLen && panics < 8; n++ {
+				if !x.realCase(rc.name, key, enc, dec, blk, iv, n) {
+					// a panic inside Encrypt/Decrypt leaves the instance's mutex locked: replace both
+					panics++
+					enc, _ = rc.mk(key)
+					dec, _ = rc.mk(key)
+				}
 			}
 		}
 	}
 }
 
-func (x *runner) realCase(name string, key []byte, enc, dec kcp.BlockCrypt, blk cipher.Block, iv []byte, n int) {
+// realCase returns false when the real code panicked (the instances are then unusable).
+func (x *runner) realCase(name string, key []byte, enc, dec kcp.BlockCrypt, blk cipher.Block, iv []byte, n int) bool {
 	g := x.g
 	pt := g.Bytes(n)
 	desc := func(what string) []string {
@@ -360,7 +378,7 @@ func (x *runner) realCase(name string, key []byte, enc, dec kcp.BlockCrypt, blk 
 	ct := g.Bytes(n)
 	if m := hx.Try(func() { enc.Encrypt(ct, src) }); m != "" {
 		x.viol("cfb-panic", fmt.Sprintf("%s Encrypt len=%d out of place panicked: %s", name, n, m), desc("encrypt out of place")...)
-		return
+		return false
 	}
 	if !bytes.Equal(src, pt) {
 		x.viol("src-clobbered", fmt.Sprintf("%s Encrypt(dst, src) len=%d changed src", name, n), desc("encrypt out of place")...)
@@ -369,7 +387,7 @@ func (x *runner) realCase(name string, key []byte, enc, dec kcp.BlockCrypt, blk 
 	ct2 := append([]byte(nil), pt...)
 	if m := hx.Try(func() { enc.Encrypt(ct2, ct2) }); m != "" {
 		x.viol("cfb-panic", fmt.Sprintf("%s Encrypt len=%d in place panicked: %s", name, n, m), desc("encrypt in place")...)
-		return
+		return false
 	}
 	short := name == "salsa20" && n >= 1 && n <= 7
 	if !bytes.Equal(ct, ct2) {
@@ -407,7 +425,7 @@ func (x *runner) realCase(name string, key []byte, enc, dec kcp.BlockCrypt, blk 
 			}
 			if m := hx.Try(func() { dec.Decrypt(d2, s2) }); m != "" {
 				x.viol("cfb-panic", fmt.Sprintf("%s Decrypt len=%d %s panicked: %s", name, n, aliasName(a2), m), desc("decrypt")...)
-				continue
+				return false
 			}
 			if !a2 && !bytes.Equal(s2, from.c) {
 				x.viol("src-clobbered", fmt.Sprintf("%s Decrypt(dst, src) len=%d changed src", name, n), desc("decrypt out of place")...)
@@ -422,6 +440,7 @@ func (x *runner) realCase(name string, key []byte, enc, dec kcp.BlockCrypt, blk 
 			}
 		}
 	}
+	return true
 }
 
 func firstDiff(a, b []byte) int {
@@ -524,13 +543,18 @@ func (x *runner) concurrent() {
 		const workers, per = 4, 150
 		type job struct{ pt, want []byte }
 		jobs := make([][]job, workers)
-		for w := range jobs {
-			for i := 0; i < per; i++ {
-				pt := g.Bytes(g.Intn(maxLen + 1))
-				want := make([]byte, len(pt))
-				seq.Encrypt(want, pt)
-				jobs[w] = append(jobs[w], job{pt, want})
+		if m := hx.Try(func() {
+			for w := range jobs {
+				for i := 0; i < per; i++ {
+					pt := g.Bytes(g.Intn(maxLen + 1))
+					want := make([]byte, len(pt))
+					seq.Encrypt(want, pt)
+					jobs[w] = append(jobs[w], job{pt, want})
+				}
 			}
+		}); m != "" {
+			x.o.Note("concurrent oracle skipped for " + rc.name + ": sequential Encrypt panicked (" + m + "), reported by the other oracles")
+			continue
 		}
 		var wg sync.WaitGroup
 		bad := make([]string, workers)
@@ -558,7 +582,16 @@ func (x *runner) concurrent() {
 				}
 			}(w)
 		}
-		wg.Wait()
+		done := make(chan struct{})
+		go func() { wg.Wait(); close(done) }()
+		select {
+		case <-done:
+		case <-time.After(60 * time.Second):
+			// a panic with the mutex held blocks every other caller for good
+			x.viol("concurrent-callers", rc.name+": concurrent callers did not finish within 60 s (panic with the mutex held?)",
+				fmt.Sprintf("cipher=%s key=%s %d goroutines x %d packets", rc.name, hx.Hex(key), workers, per))
+			continue
+		}
 		x.o.CountN("oracle:concurrent:"+rc.name, workers*per)
 		for _, b := range bad {
 			if b != "" {
